@@ -642,3 +642,18 @@ TRUSTED = list(TRUSTED) + [
 ]
 LEVEL_NOTE = LEVEL_NOTE + (" Update: the float round-trip premise float_split_exact_on_D9 is now a theorem (Flocq); the *_partial theorems are kept and their unconditional forms "
                            "(construction, components_sign_ranges_sum, rebuild_from_components, in_seconds_exact, absolute_duration_spec) are proved from it; they depend on the standard real-number axioms.")
+
+
+# the hand model Model/Duration.v is proved equal to a translation of /repo's float code that is regenerated on every run
+TRUSTED = list(TRUSTED) + [
+    "tools/vlib/pyfloat2gallina.py + tools/vlib/gens/g51_duration_float.py (Python ast -> Gallina for the float fragment of duration.py: CPython's int/float typing and "
+    "conversion points, evaluation order, floor // and % only by static non-zero constants, float < > == against static int constants, every raising operation a bind, "
+    "`if PYPY:` blocks skipped, lazily cached properties read as their first evaluation on a fresh object, method resolution Duration/AbsoluteDuration on d_abs; "
+    "fails closed outside the fragment): its reading rules replace the former trust in the hand transcription of Model/Duration.v, which is now PROVED equal to the "
+    "translation (model_is_code_duration_new / model_is_code_duration_accessors / model_is_code_absolute_duration, all arguments, closed under the global context)",
+]
+LEVEL_NOTE = LEVEL_NOTE + (" Model = code: coq/Gen/DurationFloat.v is translated from src/pendulum/duration.py on every run (Duration.__new__ and AbsoluteDuration.__new__ on integer "
+                           "arguments, _sign, hours/minutes/remaining_seconds, total_*(), invert, in_*()) and Proofs/DurationFloatFacts.v proves it equal to Model/Duration.v for all "
+                           "arguments, so a semantic edit of that code breaks a proof (self-tested with five mutations: `total < 0` -> `<= 0`, `% m` dropped, 1e6 -> 1e3, abs() removed, "
+                           "SECONDS_PER_DAY replaced) rather than only a source pin. Not translated: the float-`seconds` constructor path used by + - * (Model/DurationOps.duration_new_fsec), "
+                           "_to_microseconds and __neg__ (integer code: translated by g50 for C10).")
